@@ -103,7 +103,7 @@ func nodeLabel(n ast.Node) string {
 
 // cloneFindings checks every node of the tree, descendants first; a node with
 // a failing descendant is not blamed again.
-func cloneFindings(c astgen.Case, tree *ast.Tree) (fs []astgen.Finding, checked int, shared int) {
+func cloneFindings(c astgen.Case, tree *ast.Tree, typed bool) (fs []astgen.Finding, checked int, shared int) {
 	refs := asteq.Reachable(tree, true)
 	tainted := map[ast.Node]bool{}
 	done := map[ast.Node]bool{}
@@ -140,7 +140,25 @@ func cloneFindings(c astgen.Case, tree *ast.Tree) (fs []astgen.Finding, checked 
 			taint()
 			continue
 		}
-		if la, lb, differ := asteq.Diff(before, asteq.Dump(cl, full)); differ {
+		la, lb, differ := asteq.Diff(before, asteq.Dump(cl, full))
+		if differ && typed {
+			// On a type-checked tree the clone may leave out the checker's
+			// annotations (Upvars, IR, reflect types) — then it must leave them
+			// all out — or carry them over equal; the rest must be equal.
+			bare := full
+			bare.SkipAnnotations = true
+			la, lb, differ = asteq.Diff(asteq.Dump(n, bare), asteq.Dump(cl, bare))
+			if !differ {
+				for _, l := range asteq.Dump(cl, full) {
+					if asteq.IsAnnotation(l) && !asteq.IsZero(l) {
+						la, lb, differ = asteq.Line{Path: l.Path, Val: "(annotations of the original)"}, l, true
+						la.Path = ".annotations" + la.Path
+						break
+					}
+				}
+			}
+		}
+		if differ {
 			owner := topField(la)
 			if la.Path == "" {
 				owner = topField(lb)
@@ -344,6 +362,10 @@ func walkFindings(c astgen.Case, tree *ast.Tree) (fs []astgen.Finding, checked i
 const slots = 8
 
 func parse(c astgen.Case, expanded bool) (*ast.Tree, string, error) {
+	if strings.HasPrefix(c.Name, "typed:") {
+		t, err := astgen.ParseTyped(c)
+		return t, "type-checked", err
+	}
 	if expanded {
 		if t, err := astgen.ParseExpanded(c); err == nil {
 			return t, "expanded", nil
@@ -371,7 +393,7 @@ func space(name, aspect string, cases []astgen.Case, expanded bool, nslots int) 
 			var r astgen.Result
 			if aspect == "clone" {
 				var shared int
-				r.Findings, r.Ops, shared = cloneFindings(c, tree)
+				r.Findings, r.Ops, shared = cloneFindings(c, tree, how == "type-checked")
 				r.Class = how + ":clone-ok"
 				if shared > 0 {
 					r.Class += "(shares-pointers-unobservably)"
@@ -411,6 +433,9 @@ func spaces(tier string) []kit.Space {
 			space("3-multi-file", aspect, multi, true, slots),
 			space("4-corpus", aspect, corpus, true, slots),
 		)
+		if aspect == "clone" {
+			sps = append(sps, space("5-type-checked", aspect, astgen.Typed(), true, slots))
+		}
 	}
 	return sps
 }
@@ -425,7 +450,7 @@ func main() {
 			"clone equality = equal deterministic reflection dumps including *ast.Position values and parenthesis counts; nil and empty slices are equal",
 			"independence = after changing every settable number, string, bool, byte, slice element and parenthesis count reachable from the clone, the original's dump is unchanged; pointers shared without an observable effect (none is documented) are only counted in the outcome class",
 			"reachable nodes = values implementing ast.Node found by reflection through exported fields, except *ast.Position and IR fields; children documented as skipped by Walk: " + documentedSkips,
-			"trees are taken before type checking (IR fields, Upvars and reflect types are unset)",
+			"the first four spaces take trees before type checking; the space 5-type-checked keeps the tree given to ExpandedTransformer until BuildTemplate has returned, i.e. with the checker's annotations (Upvars and their Declaration nodes, IR fields, reflect types): a clone may omit all annotations or carry them equal, and mutating everything reachable from the clone, annotations included, must not change the original",
 		},
 		Spaces: spaces,
 	})
